@@ -170,6 +170,90 @@ func c13_11(c *core.Ctx, p *core.Prog) {
 // nil when the batch carries none (payload dropped or relabelled).  The caller
 // may use it only under a nil test of that very value; "the batch is not
 // empty" is not that test.
+// ---- C07.18: no decode succeeds without the records having been sorted ----
+//
+// The scan of the consumed records (RelatedDataFrom) is what finds the main record wherever it sits, rejects unknown
+// and duplicated payloads and hands every related record to its store. A success return of a *From decoder that is
+// reachable from Consume without passing that scan — an "empty batch" fast path that looks at the first record only —
+// reports a batch as decoded although none of it was looked at: a batch whose main record is not first comes back as
+// zero telemetry with a nil error.
+func c07_18(c *core.Ctx, p *core.Prog) {
+	n := 0
+	sorts := func(i ssa.Instruction) bool {
+		cl, ok := i.(*ssa.Call)
+		if !ok {
+			return false
+		}
+		sig := cl.Call.Signature()
+		in, out, hasErr := false, false, false
+		for k := 0; k < sig.Params().Len(); k++ {
+			if isRecordMsgSlice(sig.Params().At(k).Type()) {
+				in = true
+			}
+		}
+		for k := 0; k < sig.Results().Len(); k++ {
+			t := sig.Results().At(k).Type()
+			if pt, ok := t.(*types.Pointer); ok && core.TypeName(pt.Elem()) == "RecordMessage" {
+				out = true
+			}
+			if isErr(t) {
+				hasErr = true
+			}
+		}
+		return in && out && hasErr
+	}
+	hasSort := func(f *ssa.Function) bool {
+		found := false
+		core.EachInstr(f, func(i ssa.Instruction) {
+			if sorts(i) {
+				found = true
+			}
+		})
+		return found
+	}
+	for _, from := range methodsOf(p, pkgArrowRecord, "Consumer", "TracesFrom", "LogsFrom", "MetricsFrom") {
+		if d := delegateOf(p, from, hasSort); d != nil {
+			from = d
+		}
+		// the call that yields the records: a call returning ([]*RecordMessage, error)
+		var consume ssa.Instruction
+		core.EachInstr(from, func(i ssa.Instruction) {
+			cl, ok := i.(*ssa.Call)
+			if !ok || consume != nil {
+				return
+			}
+			res := cl.Call.Signature().Results()
+			if res.Len() == 2 && isRecordMsgSlice(res.At(0).Type()) && isErr(res.At(1).Type()) {
+				consume = i
+			}
+		})
+		key := "sorted|fn=" + core.FuncName(from)
+		if consume == nil {
+			if !hasSort(from) {
+				c.Undecided(key, p.Pos(from.Pos()), core.FuncName(from), "neither the call that yields the records nor the scan of them found")
+			}
+			// the records are a parameter of the delegate: every success return passes the scan from entry
+			consume = from.Blocks[0].Instrs[0]
+		}
+		n++
+		bad := ""
+		for _, r := range core.Returns(from) {
+			k := len(r.Results) - 1
+			if k < 0 || !isErr(r.Results[k].Type()) || !core.IsNilConst(core.ResultValue(r, k)) {
+				continue
+			}
+			if ok, _ := (core.PathQuery{Fn: from, From: consume, To: r, Avoid: sorts}).Exists(); ok {
+				bad = p.Pos(r.Pos())
+			}
+		}
+		c.Check(bad == "", key, p.Pos(consume.Pos()), core.FuncName(from), "every success return is reached through the scan of the consumed records",
+			"the success return at "+bad+" can be reached without the consumed records having been scanned (sorted into main record and related data): a batch is reported as decoded with a nil error although its payloads were never looked at — a batch whose main record is not the first payload yields no telemetry and no error")
+	}
+	if n == 0 {
+		c.Undecided("sorted", "?", "", "no *From decoder found")
+	}
+}
+
 func c07_14(c *core.Ctx, p *core.Prog) {
 	n := 0
 	// the call that sorts the records into related data and the main record: by its shape
@@ -265,5 +349,6 @@ func init() {
 	register("C13", &core.Rule{ID: "C13.10", Title: "the dictionary settings are written by the config package's defaults and options only", Mod: core.ModRoot, Floor: 4, Run: c13_10})
 	register("C04", &core.Rule{ID: "C04.13", Title: "the dictionary settings are written by the config package's defaults and options only", Mod: core.ModRoot, Floor: 4, Run: c13_10})
 	register("C13", &core.Rule{ID: "C13.11", Title: "every recorded schema-update event advances the pending-update counter", Mod: core.ModRoot, Floor: 1, Run: c13_11})
+	register("C07", &core.Rule{ID: "C07.18", Title: "every success return of a *From decoder is reached through the scan of the consumed records", Mod: core.ModRoot, Floor: 3, Run: c07_18})
 	register("C07", &core.Rule{ID: "C07.14", Title: "the main record RelatedDataFrom may not have found is used only under a nil test of itself", Mod: core.ModRoot, Floor: 3, Run: c07_14})
 }
